@@ -69,6 +69,9 @@ def one(ctx, core, shape, method, n, order, full_output):
         d = D(f, method=method, n=n, order=order, full_output=full_output)
         x = s.x_array(shape)
         holder['calls'] = s.fcalls
+        # a first call with other arguments: the checked call must not see anything of it
+        d(x, DV({('arg-first-call', 0)}, 'f'), a=DV({('kw-first-call', 'a')}, 'f'))
+        del s.fcalls[:]
         res = d(x, marker, a=kwmarker)
         return res, list(s.fcalls)
     ex = explore(ctx.repo, body, pinned={'(np.abs(step) > 0).all()': True})
@@ -105,7 +108,7 @@ def one(ctx, core, shape, method, n, order, full_output):
                 continue
             for c, e in enumerate(items):
                 t = tags_of(e)
-                foreign = {x for x in t if x[0] == 'x' and x[1] != c}
+                foreign = {x for x in t if (x[0] == 'x' and x[1] != c) or 'first-call' in str(x[0])}
                 if foreign:
                     bad.append('%s[%d] depends on %s' % (nm, c, sorted(foreign)))
         rep.check(not bad, 'R-COLSEP', construct, where,
